@@ -222,7 +222,19 @@ class OperatedM(SentM):
         from pytableaux.lang import Operated
         self.cls = Operated
         self.oper, self.operands = oper, list(operands)
+        self.cache = {}          # private cache slots of the derived attributes written from outside the lazy wrapper (checked by the caller's obligation)
+    DERIVED_SETS = ('constants', 'variables', 'predicates', 'atomics')
+    DERIVED_SEQS = ('operators', 'quantifiers')
+    def derived_spec(self, name):
+        "the contract of the derived attribute (obligations C15.Operated.<name>)"
+        if name in self.DERIVED_SETS: return SetE([Spec(name, x) for x in self.operands])
+        return SeqE(([self.oper] if name == 'operators' else []) + [Spec(name, x) for x in self.operands])
+    def sym_setattr(self, it, name, v):
+        if name.startswith('_') and name[1:] in self.DERIVED_SETS + self.DERIVED_SEQS: self.cache[name[1:]] = v; return
+        raise Outside(f'write Operated.{name}')
     def sym_getattr(self, it, name):
+        if name in self.DERIVED_SETS + self.DERIVED_SEQS:
+            return self.cache[name] if name in self.cache else self.derived_spec(name)
         if name == 'operator': return self.oper
         if name == 'operands': return tuple(self.operands)
         if name == 'lhs': return self.operands[0]
@@ -243,6 +255,10 @@ def lex_world():
     from pyvc.world import World
     from pytableaux.lang import Constant, Operator
     w = World()
+    def set_display(it, items):
+        if all(isinstance(x, ParamV) for x in items): return SetE(list(items))
+        raise Outside('set display with symbolic elements')
+    w.sym_set_display = set_display
     def chain_from_iterable(it, xs):
         items = it.iterate(xs)
         if items and all(isinstance(x, SetE) for x in items): return SetE([p for x in items for p in x.parts])
